@@ -161,7 +161,7 @@ Fixpoint fpieces (fuel : nat) (cur : str) (s : str) : option (list piece) :=
 Definition fstring_pieces (content : str) : option (list piece) := fpieces (S (length content)) [] content.
 
 (* lowering.rs: std.concat of str_lit(text) and the hole expressions; here: the SQL text of each piece *)
-Definition emit_piece (p : piece) : str := match p with PText s => emit_literal_string s | PHole h => h end.
+Definition emit_piece (bs : bool) (p : piece) : str := match p with PText s => emit_literal_string bs s | PHole h => h end.
 
 (* ------------------------------------------------------------------ numbers *)
 Inductive numlit :=
@@ -403,18 +403,38 @@ Definition emit_datetime (sqlite : bool) (fn_sqlite fn_other : str) (v : str) : 
   if sqlite then fn_sqlite ++ [40] ++ emit_string (tz_colon v) ++ [41]
   else fn_other ++ [32] ++ emit_string v.
 
-Definition emit_literal (sqlite : bool) (l : lit) : option str :=
+(* sqlite: ctx.dialect.is::<SQLiteDialect>();  bs: ctx.dialect.string_literal_backslash_escape() *)
+Definition emit_literal (sqlite bs : bool) (l : lit) : option str :=
   match l with
   | LNull => Some emit_null
   | LInt n => Some (emit_int (Z.of_N n))
   | LFloat _ _ => None                       (* format!("{f:?}") of the rounded binary64: not modelled *)
   | LBool b => Some (emit_bool b)
-  | LString s | LRaw s => Some (emit_literal_string s)
+  | LString s | LRaw s => Some (emit_literal_string bs s)
   | LFString _ => None                       (* an expression (concat), see fstring_pieces / emit_piece *)
   | LDate v => Some (emit_datetime sqlite s_DATE s_DATE v)
   | LTime v => Some (emit_datetime sqlite s_TIME s_TIME v)
   | LTimestamp v => Some (emit_datetime sqlite s_DATETIME s_TIMESTAMP v)
   end.
+
+(* ------------------------------------------------------------------ dialects: who doubles backslashes, who reads them as escapes *)
+(* The two tables are parameters, instantiated with Gen/GenLiteral.v:
+     wt = writer_backslash_doubling  (sql/dialect.rs: Dialect -> handler -> string_literal_backslash_escape)
+     rt = reader_backslash_escape    (the pinned sqlparser's dialect of the same name: does '...' read \ as an escape;
+                                      do \% and \_ keep their backslash) *)
+Fixpoint reader_of (rt : list (str * (bool * bool))) (name : str) : option sqld :=
+  match rt with
+  | [] => None
+  | (k, (b, w)) :: r => if leqb name k then Some {| bs_escapes := b; keep_wild := w |} else reader_of r name
+  end.
+(* every dialect of the writer table, except the listed ones, doubles backslashes exactly when its reading side
+   treats them as escapes *)
+Definition flags_agree (except : list str) (wt : list (str * bool)) (rt : list (str * (bool * bool))) : bool :=
+  forallb (fun kv => existsb (leqb (fst kv)) except ||
+                     match reader_of rt (fst kv) with Some d => Bool.eqb (snd kv) (bs_escapes d) | None => false end) wt.
+Fixpoint writer_of (wt : list (str * bool)) (name : str) : option bool :=
+  match wt with [] => None | (k, w) :: r => if leqb name k then Some w else writer_of r name end.
+Definition s_bigquery : str := [98;105;103;113;117;101;114;121].
 
 (* reading a number token back: decimal digits -> value *)
 Definition all_digits (s : str) : bool := match s with [] => false | _ => forallb is_digit s end.
